@@ -42,8 +42,14 @@ def path_list(tier):
     return list(gen.paths(1, gen.PARTS)) + [p for p in gen.paths(2, gen.PARTS20) if len(p[1]) == 2] + three + four
 
 
+# mapping keys that are themselves tuples (hashable, so legal keys of a Python mapping; C04 quantifies over every
+# document): a reported path holds such a key as ONE element
+TUPLE_KEY_DOCS = [{("a", "b"): 1, "a": {"b": 2}}, {(0, 1): [1, 2], 0: [5, 6], 1: 7}, {(): 1, "a": {(1,): [3], 1: [4]}},
+                  [{("a",): {"a": 1}}, {"a": 2}]]
+
+
 def family(tier):
-    return (gen.docs_struct(3) if tier == "quick" else gen.docs_struct(4)) + gen.docs_type2() + gen.docs_deep()
+    return (gen.docs_struct(3) if tier == "quick" else gen.docs_struct(4)) + gen.docs_type2() + gen.docs_deep() + TUPLE_KEY_DOCS
 
 
 _pl = {}
